@@ -239,7 +239,7 @@ def run(scn, want=(), fault=None, script=None, fit_faults=None, probe_limit=True
                 snt = float(self.options["search_n_try"])
                 # A round of search_n_try searches may be empty-handed after an early success (poll skipped), and the
                 # following round may be empty too before its closing poll: at most 2*snt - 2 idle iterations in a row.
-                limit["w"] = 2 * int(snt)
+                limit["w"] = max(2, 2 * int(snt))
                 limit["n"] = int((snt + 1) * (float(self.options["max_iter"]) + float(scn["options"].get(
                     "max_fun_evals", self.options["max_fun_evals"])) + 12) + 10)
             w = limit["w"]
@@ -389,9 +389,19 @@ def run(scn, want=(), fault=None, script=None, fit_faults=None, probe_limit=True
         def w_impr(self, f_base, f_new, s_base, s_new, q, _o=BADS._eval_improvement_):
             z = _o(self, f_base, f_new, s_base, s_new, q)
             if np.size(z) == 1:
-                tr.events.append(dict(type="improve", z=_f(z), f_base=_f(f_base), f_new=_f(f_new), phase=tr.phase,
-                                      ncalls=len(tr.calls)))
+                tr.events.append(dict(type="improve", z=_f(z), f_base=_f(f_base), f_new=_f(f_new), s_new=_f(s_new) if s_new is not None else None,
+                                      phase=tr.phase, ncalls=len(tr.calls)))
             return z
+
+        orig_predict = GP.predict
+
+        def w_predict(self, x_star, *a, **k):
+            out = orig_predict(self, x_star, *a, **k)
+            if np.ndim(x_star) == 2 and np.shape(x_star)[0] == 1:
+                tr.events.append(dict(type="predict1", x=np.array(x_star, dtype=float).ravel().copy(), mu=_f(out[0]), s2=_f(out[1]),
+                                      phase=tr.phase, ncalls=len(tr.calls)))
+            return out
+        pairs.append((GP, "predict", w_predict))
 
         def w_upd(self, u_new, yval_new, fval_new, fsd_new, _o=BADS._update_incumbent_):
             tr.events.append(dict(type="incumbent", u=np.array(u_new, dtype=float).ravel().copy(), yval=_f(yval_new),
